@@ -85,6 +85,10 @@ CLAIMED = {
             "runtime monitor: lock-step straight-line programs on every implementation of the same object (Ed25519 ct / AllowVarTime / edwards25519vartime projective+extended / math/big model / crypto/ed25519; P-256, BN256 G1, BN254 G1 vs math/big Weierstrass model; Kilic / CIRCL / gnark) + build-variant differential: the ctprog transcript program built with tags {default, generic, purego, constantTime, constantTime+purego} and compared line by line",
             "Point encodings must be identical after every step of every program on all implementations of a curve (scalars compared as integers), BLS12-381 back-ends must agree byte-for-byte on scalars, G1, G2, GT, Hash, Pair and BLS signatures; the verif hooks compare field ops, the three scalar multipliers and slide with math/big. Five builds of one seeded transcript (mod.Int, compatible.Int, Ed25519, CIRCL, Shamir, Schnorr/EdDSA/BLS, XOFs, random; full library for default/generic/purego) must print identical lines; a differing line with identical operands is a violation class keyed by its op.",
             "math/big models, crypto/ed25519; purego also switches gnark-crypto, CIRCL and x/crypto to pure Go, so dependency assembly is covered differentially; Pick is excluded from cross-back-end comparison (legitimately different)."),
+    "C11": ("fault_enumeration",
+            "runtime monitor: Pedersen DKG through the direct API and through the goroutine Protocol driver (harness Board/Phaser with barrier ticks; -race in thorough), fresh / fast-sync / 18 resharing shapes, 37-entry Byzantine menu enumerated over every party for groups <= 4 and sampled above, per-recipient delivery permutations/duplications; Rabin DKG with the harness playing Byzantine participants (real vss Dealer/Verifiers under that participant's key, deals sealed via the verif hook, hand-signed commit messages), ~60 fault kinds enumerated for n <= 4",
+            "Among honest nodes that finish: identical Commits and QUAL, every share on the polynomial, any t shares reconstruct a secret matching Commits[0] (math/big Lagrange), key = sum of QUAL contributions / unchanged after resharing, dealers with an unjustified invalid deal out of QUAL, honest dealers in QUAL, all-honest runs complete at every node (goroutine-liveness probe for WaitEnd). Violation keys carry the cause derived from the ground-truth fault ledger.",
+            "Byzantine behaviour is limited to the enumerated menus; non-completion caused by a faulty participant is not judged; Ed25519 suite; VerifSnapshot hook only for evidence (distinct final status matrices)."),
 }
 
 PENDING = {}
